@@ -1,12 +1,56 @@
-(* a stream of commands, encoded one after the other by the same encoder into the same output *)
+(* One TTYEncoder object encoding a list of commands into one output.
+
+   The state a TTYEncoder carries between calls (src/encoder.rs:26-29):
+     caps    : TerminalCaps   immutable
+     chunks  : Chunks         scratch buffer of the two SGR arms: `clear()`ed at the start of
+                              Face / FaceModify, emptied again by `drain`
+   and nothing else: no memo of the last face, mode, keyboard level or cursor.  The
+   alternate-screen keyboard bracketing is a function of the command and caps only.
+   `encode_st` threads exactly this state (the chunk list left in the buffer); the
+   theorem EncodeMeaning.encode_st_stateless shows the output never depends on it, so
+   encoding through one encoder is the concatenation of the per-command encodings.  A
+   hidden memo added to the real encoder (skip a command "already sent") contradicts
+   this model: the correspondence run then sees different bytes for repeated commands. *)
 From Coq Require Import List NArith.
-From SNT Require Import Base.Outcome Encoder.Encode.
+From SNT Require Import Base.Outcome Encoder.Decimal Encoder.Encode.
 Import ListNotations.
 Local Open Scope N_scope.
 
 Section Stream.
   Variable pal256 : rgba -> N.
   Variable gray4 : rgba -> N.
+
+  Definition enc_state : Type := list (list N).       (* chunks left in the scratch buffer *)
+  Definition enc_new : enc_state := [].
+  Definition chunks_clear (s : enc_state) : enc_state := [].
+
+  Definition encode_st (cp : caps) (s : enc_state) (c : cmd) : outcome (list N * enc_state) :=
+    match c with
+    | Face f =>
+        (* self.chunks.clear(); push ..; drain(b";") which clears again *)
+        let chunks := chunks_clear s ++ face_chunks pal256 gray4 (cp_depth cp) f in
+        Ok (sgr_bytes chunks, [])
+    | FaceModify m =>
+        let chunks := chunks_clear s ++ fm_chunks pal256 gray4 (cp_depth cp) m in
+        match chunks with
+        | [] => Ok ([], [])
+        | _ => Ok (sgr_bytes chunks, [])
+        end
+    | _ =>
+        (* no other arm touches the encoder *)
+        let* b := encode pal256 gray4 cp c in Ok (b, s)
+    end.
+
+  Fixpoint encode_stream_st (cp : caps) (s : enc_state) (cs : list cmd) : outcome (list N * enc_state) :=
+    match cs with
+    | [] => Ok ([], s)
+    | c :: r =>
+        let* x := encode_st cp s c in
+        let* y := encode_stream_st cp (snd x) r in
+        Ok (fst x ++ fst y, snd y)
+    end.
+
+  (* the concatenation of self-contained per-command encodings *)
   Fixpoint encode_stream (cp : caps) (cs : list cmd) : outcome (list N) :=
     match cs with
     | [] => Ok []
